@@ -185,10 +185,21 @@ func runC46(p c46Prog) c46Result {
 		errsOut  []error
 		panicked any
 	)
-	func() {
+	// the slowest generated task takes 1.5 s: a call that has not returned after 20 s never will
+	// (the calling goroutine is left behind; the case is over)
+	returned := make(chan struct{})
+	go func() {
+		defer close(returned)
 		defer func() { panicked = recover() }()
 		values, errsOut = promise.All(ctx, fns...)
 	}()
+	select {
+	case <-returned:
+	case <-time.After(20 * time.Second):
+		res.violationSig = "all-did-not-return"
+		res.msg = fmt.Sprintf("promise.All with %d tasks had not returned 20 s after the call (every task had long finished)", n)
+		return res
+	}
 	allReturned.Store(true)
 	// snapshot the completion flags first: this is the moment All returned
 	fin := make([]bool, n)
